@@ -1,6 +1,8 @@
 (* level timesync: TimeSync windows + the frame-advantage estimate (all logic is extracted Coq) *)
 open Conv
 let state : Model.time_sync ref = ref Model.ts_new
+(* next_recommended_sleep of the recommendation gate *)
+let gate : Model.z ref = ref Model.gate_init
 
 (* decimal strings beyond the native int range are not needed: scripts keep |values| < 2^62 *)
 let z (s : string) : Model.z = z_of_int (int_of_string s)
@@ -26,6 +28,14 @@ let handle (dbg : bool) (toks : string list) : string =
         | Model.Ok c -> "ok " ^ string_of_int (int_of_z a) ^ " " ^ string_of_int (int_of_z c)
         | Model.Err -> "err"
         | Model.Panic -> "panic")
+     | Model.Err -> "err"
+     | Model.Panic -> "panic")
+  | ["gnew"] -> gate := Model.gate_init; "ok"
+  | ["gate"; cf; fa] ->
+    (match Model.gate_step !gate (z cf) (z fa) with
+     | Model.Ok (n, o) ->
+       gate := n;
+       (match o with Some k -> "wait " ^ string_of_int (int_of_z k) | None -> "none")
      | Model.Err -> "err"
      | Model.Panic -> "panic")
   | _ -> "badop"
